@@ -740,6 +740,30 @@ pub fn run(rep: &mut Report) {
     let nsp = spread.len() as u64;
     rep.bound("parse_back_subsecond_spread", nsp);
     sweep(rep, "c19.parse_back[subsec]", sf.len() as u64 * nsp, |i, out| j_parse_back(sf[(i / nsp) as usize], spread[(i % nsp) as usize], out));
+    // interior scan (round 8): evenly spread, unremarkable (day, nanosecond of day) pairs over years 0001-9999 - every token through
+    // four formats in nine scales, and the parse-back clause for UTC epochs with unremarkable nanosecond fields
+    {
+        let nsc: u64 = if rep.quick() { 60_000 } else { 2_000_000 };
+        rep.bound("interior_scan_points", nsc);
+        let (d0, d1) = (days1900(1, 1, 1) as i128, days1900(9999, 12, 31) as i128);
+        let scs = [TimeScale::UTC, TimeScale::TAI, TimeScale::GPST, TimeScale::TDB, TimeScale::TT, TimeScale::ET, TimeScale::GST, TimeScale::BDT, TimeScale::QZSST];
+        let dfmts: [(&[char], &[usize]); 4] = [(&['Y', 'm', 'd', 'H', 'M', 'S', 'f', 'T'], &[1, 1, 4, 3, 3, 7, 2]), (&['A', 'd', 'B', 'Y', 'j', 'w'], &[12, 2, 2, 2, 2]), (&['a', 'b', 'y', 'J'], &[2, 2, 2]), (&['j', 'Y', 'A', 'z'], &[1, 2, 0])];
+        let lp = &leap;
+        sweep(rep, "c19.scan_render", 36 * nsc, |i, out| {
+            let k = i / 36;
+            let ts = scs[(i % 9) as usize];
+            let c = super::c08::expected_count(crate::lattice::scan_point(k, 1, d0, d1) as i64, crate::lattice::scan_point(k, 2, 0, NS_DAY - 1), ts);
+            let (tk, sp) = dfmts[((i / 9) % 4) as usize];
+            j_render(tk, sp, c, ts, lp, out)
+        });
+        sweep(rep, "c19.scan_parse_back", sf.len() as u64 * 2 * nsc, |i, out| {
+            let k = i / sf.len() as u64;
+            // years 1972-2100 (leap seconds behind, none ahead) and the whole four-digit range alternate
+            let day = if k % 2 == 0 { crate::lattice::scan_point(k, 3, days1900(1972, 1, 2) as i128, days1900(2100, 1, 1) as i128) } else { crate::lattice::scan_point(k, 4, d0, d1) };
+            let c = super::c08::expected_count(day as i64, crate::lattice::scan_point(k, 5, 0, NS_DAY - 1), TimeScale::UTC);
+            j_parse_back(sf[(i % sf.len() as u64) as usize], c, out)
+        });
+    }
     let ps = parse_back_structures();
     rep.bound("parse_back_structures", ps.len() as u64);
     sweep(rep, "c19.parse_back[structures]", ps.len() as u64 * nu, |i, out| j_parse_back(&ps[(i / nu) as usize], utc[(i % nu) as usize], out));
